@@ -279,3 +279,8 @@ SPECS.update({
         "explanation": "invariant of Model/Admission.v over all event sequences (every entry keyed by its record's id, contactable in the IP mode, accepted by the table filter, not the local node), origin of keys (session report or add_enr only, never discovered()), single-stack address bound through verify_enr, update rule of discovered() + step-by-step correspondence of the real Service (table dump after every event) in all IP modes with four table filters + direct monitor",
     },
 })
+
+# C01 also covers what the service does with the handler's reports ("X's routing-table entry is changed
+# because of the handshake"): the scripted-service histories of C12 are run again as monitor-only runs of
+# C01 (an UnverifiableEnr report that carries the record of another node must not touch that node's entry)
+SPECS["C01"]["harness"].append({"component": "service", "args": ["--focus", "c12"], "quick": 96, "thorough": 1200, "correspondence": False})
